@@ -228,7 +228,7 @@ def both_real(a, b):
 def truth(v):
     if isinstance(v, Opaque):
         return z3.Bool("opaque!cond!%d" % v.id)
-    if isinstance(v, tuple) and v and v[0] == "array-compare":
+    if isinstance(v, tuple) and v and isinstance(v[0], str) and v[0] == "array-compare":
         return z3.Bool("opaque!cond!%d" % next(Opaque._n))
     if isinstance(v, bool):
         return z3.BoolVal(v)
@@ -318,6 +318,14 @@ class PyExec:
         for p, d in zip(a.kwonlyargs, a.kw_defaults):
             local[p.arg] = kwargs.get(p.arg, self.const_expr(d) if d is not None else None)
         local["__cls__"] = cls
+        # names assigned somewhere in this function: reading one of them before it is bound is UnboundLocalError
+        assigned = set()
+        for sub in ast.walk(fnode):
+            if isinstance(sub, ast.Name) and isinstance(sub.ctx, ast.Store):
+                assigned.add(sub.id)
+            elif isinstance(sub, (ast.FunctionDef, ast.Lambda)) and sub is not fnode:
+                pass
+        local["__assigned__"] = assigned
         outs = []
         for (s, fl, v, e) in self.exec_block(st, fnode.body, local):
             if fl == "normal":
@@ -725,6 +733,10 @@ class PyExec:
         if isinstance(n, ast.Name):
             if n.id in env:
                 return env[n.id]
+            if n.id in env.get("__assigned__", ()):
+                # local variable read on a path where it has not been bound (definite-assignment obligation)
+                self.oblige("unbound", st, z3.BoolVal(False), n, label="local '%s' is read before assignment (UnboundLocalError)" % n.id)
+                return Opaque("unbound local %s" % n.id)
             if n.id in self.globals:
                 return self.globals[n.id]
             if n.id in self.mod.funcs:
@@ -867,6 +879,12 @@ class PyExec:
             return Opaque("array comparison")
         if isinstance(a, Ref) or isinstance(b, Ref):
             return ("array-compare", a, b)
+        if isinstance(a, tuple) and isinstance(b, tuple) and isinstance(op, (ast.Eq, ast.NotEq)):
+            if len(a) != len(b):
+                r = z3.BoolVal(False)
+            else:
+                r = simp(z3.And(*[self.compare(ast.Eq(), x, y) for x, y in zip(a, b)])) if a else z3.BoolVal(True)
+            return r if isinstance(op, ast.Eq) else simp(z3.Not(r))
         if isinstance(a, str) or isinstance(b, str) or a is None or b is None:
             if is_sym(a) or is_sym(b):
                 return z3.BoolVal(isinstance(op, ast.NotEq))
